@@ -50,7 +50,7 @@ pub enum Op {
     /// `replay_stage()` of the export kept aside by the last StageSave (if any)
     StageRestore { r: usize },
     /// direct object API on one tracked element: kind 0 update_object(fields), 1 delete_object,
-    /// 2 remove_object
+    /// 2 remove_object, 3 create_object(fields) on that or on a new identifier
     ObjOp { r: usize, kind: u8, id_sel: u32, fields: Value },
     /// SyncNet: copy one stored item (chosen by `sel` among those `to` lacks) from `from` to `to`;
     /// delivered `delay` Deliver-ticks later; `dup`: delivered twice; `drop`: lost
